@@ -384,7 +384,11 @@ func (e *Engine) solveBatch(checks []candCheck) []batchResult {
 			if c.quant && r.status != "unsat" {
 				r = runSolver(solvers[1], file, 3)
 			}
-			os.Remove(file)
+			if os.Getenv("GOVC_HOUDINI") != "" && r.status != "unsat" {
+				fmt.Fprintf(os.Stderr, "HOUDINI query kept: %s (%s)\n", file, r.status)
+			} else {
+				os.Remove(file)
+			}
 			res[i] = batchResult{idx: c.idx, status: r.status}
 		}(i, c)
 	}
